@@ -106,7 +106,12 @@ where B::Octets: AsRef<[u8]> {
 /// `oracle` switches the property checks on.
 fn run_seq<B: Bld>(out: &mut Out, case: &str, ops: &[Op], fin: &Fin, oracle: bool) -> String
 where B::Octets: AsRef<[u8]> {
-    let mut b = NameBuilder::<B>::new();
+    run_seq_from(out, case, NameBuilder::<B>::new(), ops, fin, oracle)
+}
+
+fn run_seq_from<B: Bld>(out: &mut Out, case: &str, b0: NameBuilder<B>, ops: &[Op], fin: &Fin, oracle: bool) -> String
+where B::Octets: AsRef<[u8]> {
+    let mut b = b0;
     let mut words: Vec<&'static str> = vec![];
     let mut tainted = false;     // a known-class state has been reached
     let mut shortbuf_seen = false;
@@ -330,6 +335,12 @@ fn wire_case(out: &mut Out, w: &[u8]) {
         slicing_oracle(out, &c, n);
     }
     uncertain_case(out, w);
+    if RelativeName::from_octets(w.to_vec()).is_err() {
+        let cc = format!("fromb {} F", hex(w));
+        let e = NameBuilder::from_builder(w.to_vec()).err().map(|e| err_word(&format!("{:?}", e)));
+        out.check(e.is_some(), "from_builder_differs", &cc, "accepts what RelativeName::from_octets rejects");
+        if let Some(e) = e { out.case(&cc, &e, w.len() > 1, "from_builder"); }
+    }
     let c = format!("rel {}", hex(w));
     let r = RelativeName::from_octets(w.to_vec());
     let obs = match &r { Ok(_) => "Ok".to_string(), Err(e) => err_word(&format!("{:?}", e)) };
@@ -341,6 +352,14 @@ fn wire_case(out: &mut Out, w: &[u8]) {
         // NameBuilder::from_builder accepts the same octets and continues from them
         let b = NameBuilder::from_builder(w.to_vec());
         out.check(b.is_ok(), "from_builder_differs", &c, "");
+        if let Ok(b0) = b {
+            // continue building from the accepted octets
+            let ops = vec![Op::Push(b'p'), Op::Label(vec![b'q'; (w.len() % 7) + 1]), Op::Slice(vec![b'r'; 3])];
+            let fin = if w.len() % 2 == 0 { Fin::Finish } else { Fin::IntoName };
+            let mut cc = format!("fromb {}", hex(w)); for o in &ops { cc.push(' '); cc.push_str(&o.word()); } cc.push(' '); cc.push_str(&fin.word());
+            let obs = run_seq_from::<Vec<u8>>(out, &cc, b0, &ops, &fin, true);
+            out.case(&cc, &obs, true, "from_builder");
+        }
         // into_absolute appends the root label
         let abs = n.clone().into_absolute();
         match abs {
@@ -435,6 +454,16 @@ fn text_case(out: &mut Out, s: &str) {
         Ok(Ok(UncertainName::Relative(n))) => format!("Ok:R:{}", hex(n.as_slice())),
         Ok(Err(e)) => last_word(&format!("{:?}", e)) };
     out.case(&c, &format!("abs={} rel={} unc={}", wa, wr, wu), s.len() > 1, "from_chars");
+    if !s.is_empty() {
+        use domain::base::scan::IterScanner;
+        let c = format!("scan {}", chars_word(s));
+        let o = catch(|| { let mut sc = IterScanner::<_, Vec<u8>>::new(vec![s.to_string()]); Name::<Vec<u8>>::scan(&mut sc).map(|n| n.as_slice().to_vec()).map_err(|_| ()) });
+        let w = match &o { Err(_) => "Panic".to_string(), Ok(Ok(v)) => format!("Ok:{}", hex(v)), Ok(Err(_)) => "Err".into() };
+        out.case(&c, &w, s.len() > 1, "name_scan");
+        let f = Name::<Vec<u8>>::from_str(s).map(|n| n.as_slice().to_vec()).map_err(|_| ());
+        out.check(o.as_ref().ok() == Some(&f), "scan_differs_from_str", &c, &w);
+        if let Ok(Ok(v)) = &o { oracle_abs(out, &c, v, false); }
+    }
     {
         use domain::base::name::OwnedLabel;
         let c = format!("olabel {}", chars_word(s));
@@ -511,7 +540,18 @@ fn parsed_checks<'a>(out: &mut Out, case: &str, what: &str, buf: &'a [u8], start
             let mut it = Vec::new();
             for l in pn.iter_labels() { it.push(l.len() as u8); it.extend_from_slice(l.as_slice()); }
             let eq_want = Name::from_octets(want.to_vec()).map(|n| pn == n).unwrap_or(true);
-            (v, c, cl, labels, f.as_slice().to_vec(), (cow, it, eq_want))
+            // walk up with parent() on one copy and split_first() on another
+            let mut up = pn.clone(); let mut sf = pn.clone();
+            let mut parents: Vec<Vec<u8>> = vec![]; let mut firsts: Vec<Vec<u8>> = vec![];
+            let walk = buf.len() % 3 == 0 || want.len() < 40;
+            for _ in 0..(if walk { 130 } else { 0 }) {
+                let first = sf.split_first().map(|l| l.as_slice().to_vec());
+                let moved = up.parent();
+                if moved != first.is_some() { parents.push(vec![0xEE]); break; }
+                match first { None => break, Some(l) => { firsts.push(l); parents.push(up.to_vec().as_slice().to_vec());
+                    if sf.to_vec().as_slice() != up.to_vec().as_slice() || usize::from(up.compose_len()) != up.to_vec().as_slice().len() { parents.push(vec![0xEF]); break; } } }
+            }
+            (v, c, cl, labels, f.as_slice().to_vec(), (cow, it, eq_want, parents, firsts))
         })
     }));
     {
@@ -522,7 +562,15 @@ fn parsed_checks<'a>(out: &mut Out, case: &str, what: &str, buf: &'a [u8], start
     match r {
         Err(e) => out.check(false, "parsed_name_panic", case, &format!("{}: {}", what, e)),
         Ok(Err(_)) => out.check(!want_ok, "parsed_vs_flat_mismatch", case, &format!("{}: ParsedName::parse rejects a name that Name::from_octets accepts", what)),
-        Ok(Ok((v, c, cl, labels, f, (cow, it, eq_want)))) => {
+        Ok(Ok((v, c, cl, labels, f, (cow, it, eq_want, parents, firsts)))) => {
+            if want_ok && v == want && (buf.len() % 3 == 0 || want.len() < 40) {
+                // expected: the suffixes of the name at every label start, the labels one by one
+                let mut exp_p: Vec<Vec<u8>> = vec![]; let mut exp_f: Vec<Vec<u8>> = vec![];
+                let mut i = 0usize; while want[i] != 0 { let l = want[i] as usize; exp_f.push(want[i..i + 1 + l].to_vec()); i += 1 + l; exp_p.push(want[i..].to_vec()); }
+                out.check(parents == exp_p, "parsed_parent_wrong", case, &format!("{}: parent() chain gives {:?}", what, parents.iter().map(|p| hex(p)).collect::<Vec<_>>()));
+                out.check(firsts == exp_f, "parsed_split_first_wrong", case, &format!("{}: split_first() gives {:?}", what, firsts.iter().map(|p| hex(p)).collect::<Vec<_>>()));
+                out.check(parents.iter().all(|p| check_abs(p).is_ok()) && firsts.iter().all(|p| check_rel(p).is_ok()), "parsed_name_invalid", case, &format!("{}: parent/split_first result invalid", what));
+            }
             out.check(check_abs(&cow).is_ok() && check_abs(&it).is_ok(), "parsed_name_invalid", case, &format!("{}: to_cow {} / label iterator {}", what, hex(&cow), hex(&it)));
             out.check(v == it && c == it && f == it && cow == it, "parsed_name_octets", case,
                 &format!("{}: label iterator {} to_vec {} compose {} flatten_into {} to_cow {}", what, hex(&it), hex(&v), hex(&c), hex(&f), hex(&cow)));
@@ -560,7 +608,13 @@ fn parsed_case(out: &mut Out, r: &mut Rng) {
     let np = catch(std::panic::AssertUnwindSafe(|| {
         let mut p = Parser::from_ref(&buf[..]); p.advance(pad).unwrap();
         Name::parse(&mut p).map(|n: Name<&[u8]>| n.as_slice().to_vec())
+            .map_err(|e| if matches!(e, domain::base::wire::ParseError::ShortInput) { "ShortInput" } else { "Form" })
     }));
+    {
+        let c = format!("nparse {}", hex(&buf[pad..]));
+        let o = match &np { Err(_) => "Panic".to_string(), Ok(Ok(v)) => format!("Ok:{}", hex(v)), Ok(Err(e)) => e.to_string() };
+        out.case(&c, &o, true, "name_parse");
+    }
     match np {
         Err(e) => out.check(false, "parsed_name_panic", &case, &format!("Name::parse: {}", e)),
         Ok(Err(_)) => out.check(!want_ok, "name_parse_vs_flat_mismatch", &case, "Name::parse rejects what from_octets accepts"),
@@ -941,7 +995,9 @@ fn serde_text_case(out: &mut Out, s: &str) {
             if *d != f {
                 let det = format!("deserialize {:?} from_str {:?}", d.as_ref().map(|v| hex(v)), f.as_ref().map(|v| hex(v)));
                 if d.is_ok() && f.is_err() && s.ends_with('.') {
-                    if HOLD_SERDE_REL { out.count("held:serde_relative_accepts_absolute"); } else { out.check(false, "serde_relative_accepts_absolute", &c, &det); }
+                    // observation, not a violation of the property text (lead's decision): the visitor of
+                    // RelativeName reads an absolute spelling "a." as the relative name a; the value is valid
+                    out.count("observation:serde_relative_accepts_absolute");
                 } else { out.check(false, "serde_relname_differs_from_str", &c, &det); }
             } else { out.check(true, "serde_relname_differs_from_str", &c, ""); }
             if let Ok(v) = d { oracle_rel(out, &c, v, false); }
@@ -1000,8 +1056,95 @@ fn serde_roundtrip_case(out: &mut Out, w: &[u8]) {
         }
     }
 }
-const HOLD_SERDE_REL: bool = true;
 const HOLD_UNC_ROOT: bool = true;
+
+
+// ------------------------------------------------------------------ constant names, three-part chains
+fn const_cases(out: &mut Out) {
+    use domain::base::name::UncertainName;
+    let items: Vec<(&str, Vec<Vec<u8>>, bool)> = vec![
+        ("root", vec![Name::root_ref().as_slice().to_vec(), Name::root_vec().as_slice().to_vec(), Name::root_bytes().as_slice().to_vec(),
+                      Name::<Vec<u8>>::root().as_slice().to_vec(), UncertainName::<Vec<u8>>::root_vec().as_slice().to_vec()], true),
+        ("root_slice", vec![Name::root_slice().as_slice().to_vec()], true),
+        ("empty", vec![RelativeName::empty_ref().as_slice().to_vec(), RelativeName::empty_vec().as_slice().to_vec(), RelativeName::empty_bytes().as_slice().to_vec(),
+                       UncertainName::<Vec<u8>>::empty_vec().as_slice().to_vec()], false),
+        ("empty_slice", vec![RelativeName::empty_slice().as_slice().to_vec()], false),
+        ("wildcard", vec![RelativeName::wildcard_ref().as_slice().to_vec(), RelativeName::wildcard_vec().as_slice().to_vec(), RelativeName::wildcard_bytes().as_slice().to_vec()], false),
+        ("wildcard_slice", vec![RelativeName::wildcard_slice().as_slice().to_vec()], false),
+    ];
+    for (k, vals, abs) in items {
+        let c = format!("const {}", k);
+        out.begin(&c);
+        out.case(&c, &hex(&vals[0]), true, "constant_name");
+        out.check(vals.iter().all(|v| v == &vals[0]), "constant_names_differ", &c, "");
+        for v in &vals { if abs { oracle_abs(out, &c, v, false); } else { oracle_rel(out, &c, v, false); } }
+    }
+    out.check(UncertainName::<Vec<u8>>::root_vec().is_absolute() && UncertainName::<Vec<u8>>::empty_vec().is_relative(), "uncertain_constants", "const", "");
+}
+
+fn chain3_case(out: &mut Out, r: &mut Rng) {
+    use domain::base::name::{ToLabelIter, ToName};
+    // a (relative) . b (relative) . c (absolute), totals steered to 255
+    let la = match r.below(3) { 0 => r.range(0, 10) as usize, _ => r.range(100, 250) as usize };
+    let la = if la == 1 { 2 } else { la };
+    let lb = match r.below(3) { 0 => (255usize.saturating_sub(la) as i64 + r.range(0, 4) as i64 - 2).max(0) as usize, _ => r.range(0, 255usize.saturating_sub(la) as u64) as usize };
+    let lb = if lb == 1 { 2 } else { lb.min(254) };
+    let room = 255usize.saturating_sub(la + lb);
+    let lc = ((room as i64 + r.range(0, 4) as i64 - 2).max(1) as usize).min(255);
+    let lc_rel = if lc - 1 == 1 { 2 } else { lc - 1 };
+    let a = RelativeName::from_octets(rel_wire(r, la)).unwrap();
+    let b = RelativeName::from_octets(rel_wire(r, lb)).unwrap();
+    let mut cw = rel_wire(r, lc_rel.min(254)); cw.push(0);
+    let cn = Name::from_octets(cw.clone()).unwrap();
+    let c = format!("chain3 {} {} {}", a.as_slice().len(), b.as_slice().len(), cw.len());
+    out.begin(&c);
+    let full = format!("{} a={} b={} c={}", c, hex(a.as_slice()), hex(b.as_slice()), hex(&cw));
+    let total = a.as_slice().len() + b.as_slice().len() + cw.len();
+    match a.clone().chain(b.clone()).and_then(|ab| ab.chain(cn)) {
+        Err(_) => { out.case(&c, "LongChain", true, "chain3"); out.check(total > 255, "chain_refused_fitting", &full, ""); }
+        Ok(ch) => {
+            out.case(&c, "Ok", true, "chain3");
+            let v = ch.to_vec();
+            oracle_abs(out, &full, v.as_slice(), false);
+            let mut want = a.as_slice().to_vec(); want.extend_from_slice(b.as_slice()); want.extend_from_slice(&cw);
+            out.check(v.as_slice() == &want[..] && usize::from(ch.compose_len()) == want.len(), "chain3_octets", &full, &hex(v.as_slice()));
+        }
+    }
+}
+
+
+// ------------------------------------------------------------------ Name::reverse_from_addr
+fn reverse_case(out: &mut Out, r: &mut Rng) {
+    use std::net::{IpAddr, Ipv4Addr, Ipv6Addr};
+    let (addr, ops): (IpAddr, Vec<Op>) = if r.chance(1, 2) {
+        let o: [u8; 4] = [*r.pick(&[0u8, 1, 9, 10, 99, 100, 199, 200, 255]), r.u8(), r.u8(), *r.pick(&[0u8, 7, 42, 127, 255])];
+        let mut ops: Vec<Op> = o.iter().rev().map(|&x| Op::Dec(x)).collect();
+        ops.push(Op::Label(b"in-addr".to_vec())); ops.push(Op::Label(b"arpa".to_vec()));
+        (IpAddr::V4(Ipv4Addr::from(o)), ops)
+    } else {
+        let o: [u8; 16] = { let mut a = [0u8; 16]; for x in a.iter_mut() { *x = if r.chance(1, 4) { *r.pick(&[0u8, 0x0f, 0xf0, 0xff, 0x9a]) } else { r.u8() }; } a };
+        let mut ops = vec![];
+        for &item in o.iter().rev() { ops.push(Op::Hex(item)); ops.push(Op::Hex(item >> 4)); }
+        ops.push(Op::Label(b"ip6".to_vec())); ops.push(Op::Label(b"arpa".to_vec()));
+        (IpAddr::V6(Ipv6Addr::from(o)), ops)
+    };
+    // the same operations as a builder sequence (T2 + oracle) ...
+    let mut case = String::from("seq -"); for o in &ops { case.push(' '); case.push_str(&o.word()); } case.push_str(" I");
+    out.begin(&case);
+    let obs = run_seq::<Vec<u8>>(out, &case, &ops, &Fin::IntoName, true);
+    out.case(&case, &obs, true, "reverse_from_addr");
+    // ... and what the constructor itself returns
+    let n = catch(move || Name::<Vec<u8>>::reverse_from_addr(addr).map(|n| n.as_slice().to_vec()).map_err(pe));
+    match n {
+        Ok(Ok(v)) => {
+            oracle_abs(out, &case, &v, false);
+            out.check(obs.ends_with(&format!("Ok:{}", hex(&v))), "reverse_from_addr_differs", &case, &hex(&v));
+            let text = format!("{}", Name::from_octets(v.clone()).unwrap());
+            out.check(text.ends_with(if addr.is_ipv4() { "in-addr.arpa" } else { "ip6.arpa" }), "reverse_from_addr_differs", &case, &text);
+        }
+        other => out.check(false, "reverse_from_addr_failed", &case, &format!("{:?}", other)),
+    }
+}
 
 // ------------------------------------------------------------------ chain
 fn chain_case(out: &mut Out, r: &mut Rng) {
@@ -1312,6 +1455,9 @@ fn main() {
         idx += 1; if out.wants(idx) { slicing_t2(&mut out, &mut r, &w, absolute); }
     }
 
+    idx += 1; if out.wants(idx) { const_cases(&mut out); }
+    for _ in 0..n_wire / 4 { idx += 1; if out.wants(idx) { chain3_case(&mut out, &mut r); } else { let _ = r.fork(); } }
+    for _ in 0..(if a.thorough { 2000 } else { 200 }) * a.scale { idx += 1; if out.wants(idx) { reverse_case(&mut out, &mut r); } else { let _ = r.fork(); } }
     let n_conf = if a.thorough { 4_000 } else { 400 } * a.scale;
     for _ in 0..n_conf { idx += 1; if out.wants(idx) { confusion_case(&mut out, &mut r); } else { let _ = r.fork(); } }
 
